@@ -935,6 +935,9 @@ func (f *Frame) enterLoop(b *ssa.BasicBlock, ls *loopState, preds []*ssa.BasicBl
 		u.wellFormedLoaded(heap, x, phi.Type())
 	}
 	ncur := u.fresh(fmt.Sprintf("loop%d.iter", ord), "Bool")
+	// an arbitrary iteration is only reached through the loop entry: everything that held
+	// on the path to the loop (facts about immutable SSA values) still holds
+	u.emit("(assert " + implies(ncur, cur) + ")")
 	// assume invariants
 	env := f.specEnvAt(b, heap)
 	for _, cl := range invs {
